@@ -19,6 +19,9 @@ import warnings
 
 ROOT = os.path.dirname(os.path.dirname(os.path.abspath(__file__)))
 sys.path.insert(0, ROOT)
+# where evidence/ and replays/ are written (default: next to the checks). tools/mutcampaign.py redirects it so that a
+# mutation campaign on a scratch copy of the repository does not overwrite the evidence of the real tree
+OUT = os.environ.get("VERIF_OUT", ROOT)
 
 EXIT_OK, EXIT_VIOLATION, EXIT_HARNESS = 0, 1, 3
 
@@ -159,7 +162,7 @@ def _run_concrete_jit(case, t0, jit=True):
     semantics / IEEE rounding and the exact-arithmetic Python-source encoding"""
     pid = case["pid"]
     d = _empty_result(case)
-    rdir = os.path.join(ROOT, "replays", pid)
+    rdir = os.path.join(OUT, "replays", pid)
     os.makedirs(rdir, exist_ok=True)
     label = case["opts"].get("label", "D-JIT")
     path = os.path.join(rdir, re.sub(r"[^A-Za-z0-9_.-]", "_", case["name"]) + "__jit.json")
@@ -237,8 +240,11 @@ def replay_file(path):
     except core.ConcStop:
         pass
     except Exception as ex:  # noqa
-        if rec["label"] == "D-RAISE" and core.raised_in_repo(ex) and not cc.conc_assume_failed:
-            return True, dict(label="D-RAISE", info=f"raised {type(ex).__name__}: {ex}"[:300])
+        # the code under test raises on the solver's counterexample: for D-RAISE that IS the claim; for any other label
+        # the claimed value is not delivered either (the solver said the claim fails for this input, the real code
+        # does not even return)
+        if core.raised_in_repo(ex) and not cc.conc_assume_failed:
+            return True, dict(label=rec["label"], info=f"raised {type(ex).__name__}: {ex}"[:300])
         raise
     finally:
         cc.restore_patches()
@@ -300,7 +306,7 @@ def main(argv=None):
     results.sort(key=lambda r: r["name"])
     known = load_known(pid)
     harness_errors, inconclusive, violations, known_hits = [], [], [], []
-    replay_dir = os.path.join(ROOT, "replays", pid)
+    replay_dir = os.path.join(OUT, "replays", pid)
     n_replayed = 0
     to_replay = []
     pre_replayed = []
@@ -434,8 +440,8 @@ def main(argv=None):
         assumptions=meta.get("assumptions", []),
         wall_s=round(wall, 2), violations=len(violations),
     )
-    os.makedirs(os.path.join(ROOT, "evidence"), exist_ok=True)
-    json.dump(ev, open(os.path.join(ROOT, "evidence", pid + ".json"), "w"), indent=1, default=str)
+    os.makedirs(os.path.join(OUT, "evidence"), exist_ok=True)
+    json.dump(ev, open(os.path.join(OUT, "evidence", pid + ".json"), "w"), indent=1, default=str)
     # ---- verdict
     seen = set()
     for k, cname, lab in known_hits:
